@@ -526,6 +526,16 @@ static Case gen_case_inner(const std::string &profile, uint64_t seed, const GenO
         op.x.u = op.kind == OP_GSSV ? 1.0 : (rc.chance(0.5) ? 1.0 : rc.unit());
         if (op.kind == OP_GSSVX) { op.x.fact = rc.chance(0.4) ? 1 : 0; op.x.trans = (int)rc.below(3); if (!prec_is_complex(c.prec) && op.x.trans == 2) op.x.trans = 1; }
         gen_sched(rs, op.sched, op.x.nprocs, baseline, profile);
+        if (kind == "two_zero_columns" && !baseline) {
+            // which of two zero-pivot columns a thread meets first depends on the order in which it is handed panels: narrow regular panels
+            // (no relaxation), several threads, one of them held back after taking a panel or after a pivot step
+            Rng rz(sim::derive(seed, 0x2c01));
+            if (rz.chance(0.6)) {
+                op.x.nprocs = (int)rz.range(2, 4); op.ienv[2] = 1; op.x.relax = 1; op.ienv[1] = rz.range(1, 2); op.x.panel_size = (int)op.ienv[1];
+                if (op.ienv[3] < 1) op.ienv[3] = 1;
+                if (rz.chance(0.6)) { op.sched.strategy = sim::ST_STALL; static const int kinds[] = {4, 4, 24, 27}; op.sched.stall_kind = kinds[rz.below(4)]; op.sched.stall_k = (int)rz.range(10, 150); op.sched.stall_nth = (int)rz.range(1, 10); op.sched.sticky_q = 0.5; op.sched.yield_mask = ~0ULL; }
+            }
+        }
         c.ops.push_back(op);
         return c;
     }
